@@ -112,3 +112,82 @@ func ZvC07_S2_History() {
 	vrt.Assert(c.Count() == 0, "C07/S2/drained")
 	vrt.Cover("C07/S2/end")
 }
+
+// ZvC07_LongRun: one long scenario beyond the capacity bound — capacity 8, 40 operations with
+// concrete keys (Add of new and present keys, Get hits and misses, GetOldest, removals) against a
+// plain recency-slice model, symbolic values; then a drain in recency order. Nothing forks.
+func ZvC07_LongRun() {
+	const capN = 8
+	c, err := NewLRU[int, int](capN)
+	vrt.Assert(err == nil, "C07/long-run/NewLRU")
+	var mk, mv []int // index 0 = most recent
+	find := func(k int) int {
+		for i := range mk {
+			if mk[i] == k {
+				return i
+			}
+		}
+		return -1
+	}
+	del := func(i int) {
+		mk = append(append([]int(nil), mk[:i]...), mk[i+1:]...)
+		mv = append(append([]int(nil), mv[:i]...), mv[i+1:]...)
+	}
+	front := func(k, v int) {
+		mk = append([]int{k}, mk...)
+		mv = append([]int{v}, mv...)
+	}
+	for s := 0; s < 40; s++ {
+		k := (s*7 + 3) % 13
+		switch s % 5 {
+		case 0, 1, 2:
+			v := vrt.Int()
+			ek, ev, rem := c.Add(k, v)
+			if i := find(k); i >= 0 {
+				del(i)
+				vrt.Assert(!rem, "C07/long-run/update-does-not-evict")
+			} else if len(mk) == capN {
+				vrt.Assert(vrt.And(rem, ek == mk[capN-1], ev == mv[capN-1]), "C07/long-run/evicts-least-recent")
+				del(capN - 1)
+			} else {
+				vrt.Assert(!rem, "C07/long-run/no-eviction-when-not-full")
+			}
+			front(k, v)
+		case 3:
+			v, ok := c.Get(k)
+			if i := find(k); i >= 0 {
+				vrt.Assert(vrt.And(ok, v == mv[i]), "C07/long-run/Get-hit")
+				val := mv[i]
+				del(i)
+				front(k, val)
+			} else {
+				vrt.Assert(!ok, "C07/long-run/Get-miss")
+			}
+		case 4:
+			if s%10 == 4 {
+				ok2, v2, ok := c.GetOldest()
+				n := len(mk)
+				vrt.Assert(vrt.And(ok, ok2 == mk[n-1], v2 == mv[n-1]), "C07/long-run/GetOldest")
+				kk, vv := mk[n-1], mv[n-1]
+				del(n - 1)
+				front(kk, vv)
+			} else {
+				v, ok := c.Remove(k)
+				if i := find(k); i >= 0 {
+					vrt.Assert(vrt.And(ok, v == mv[i]), "C07/long-run/Remove-hit")
+					del(i)
+				} else {
+					vrt.Assert(!ok, "C07/long-run/Remove-miss")
+				}
+			}
+		}
+		vrt.Assert(vrt.And(c.Count() == len(mk), c.Count() <= capN), "C07/long-run/Count")
+	}
+	for len(mk) > 0 {
+		n := len(mk)
+		k, v, ok := c.RemoveOldest()
+		vrt.Assert(vrt.And(ok, k == mk[n-1], v == mv[n-1]), "C07/long-run/drain-in-recency-order")
+		del(n - 1)
+	}
+	vrt.Assert(c.Count() == 0, "C07/long-run/drained")
+}
